@@ -14,19 +14,19 @@ SERVICE_MC_CFG = "users=3,init=12,taxnum=1,taxden=2,slashnum=1,slashden=2,maxtim
 SERVICE_SCN_CFG = "users=3,init=50,taxnum=1,taxden=2,slashnum=1,slashden=2,maxtimeout=2,minmult=1,mindep=2,wait=2"
 
 SERVICE_RND = T(
-    [dict(n=8, len=30, procs=5, cfg="users=4,init=40,taxnum=1,taxden=4,slashnum=1,slashden=2"),
-     dict(n=8, len=30, procs=5, cfg="users=5,init=100,taxnum=1,taxden=10,slashnum=1,slashden=10,maxtimeout=4,minmult=2,mindep=3,maxctx=6"),
-     dict(n=8, len=25, procs=4, cfg="users=3,init=25,taxnum=1,taxden=2,slashnum=1,slashden=1,minmult=1,mindep=0,wait=3")],
+    [dict(n=6, len=30, procs=5, cfg="users=4,init=40,taxnum=1,taxden=4,slashnum=1,slashden=2"),
+     dict(n=6, len=30, procs=5, cfg="users=5,init=100,taxnum=1,taxden=10,slashnum=1,slashden=10,maxtimeout=4,minmult=2,mindep=3,maxctx=6"),
+     dict(n=6, len=25, procs=4, cfg="users=3,init=25,taxnum=1,taxden=2,slashnum=1,slashden=1,minmult=1,mindep=0,wait=3")],
     [dict(n=40, len=40, procs=7, cfg="users=4,init=40,taxnum=1,taxden=4,slashnum=1,slashden=2"),
      dict(n=40, len=40, procs=7, cfg="users=5,init=100,taxnum=1,taxden=10,slashnum=1,slashden=10,maxtimeout=4,minmult=2,mindep=3,maxctx=6"),
      dict(n=40, len=30, procs=6, cfg="users=3,init=25,taxnum=1,taxden=2,slashnum=1,slashden=1,minmult=1,mindep=0,wait=3")])
-SERVICE_GEN = T([dict(cfg="GEN_Service.cfg", num=10, depth=20, seeds=8)],
+SERVICE_GEN = T([dict(cfg="GEN_Service.cfg", num=8, depth=20, seeds=6)],
                 [dict(cfg="GEN_Service.cfg", num=50, depth=26, seeds=14)])
 SERVICE_SCN = [dict(file="scenarios/service_cover.ndjson", cfg=SERVICE_SCN_CFG),   # every required antecedent
                dict(file="scenarios/service_F4.ndjson", cfg=SERVICE_SCN_CFG),
                dict(file="scenarios/service_F21.ndjson", cfg=SERVICE_SCN_CFG),
-               dict(file="scenarios/service_F20.ndjson", cfg=SERVICE_SCN_CFG)]
-# MC_Service_D: a provider priced in a denom that needs an exchange rate (finding F20), 5 heights
+               dict(file="scenarios/service_F20.ndjson", cfg=SERVICE_SCN_CFG)]   # regression: fixed by 6da0f9d
+# MC_Service_D: a provider priced in a denom that needs an exchange rate (no feed: context paused; was F20), 5 heights
 SERVICE_MC = T([dict(cfg="MC_Service.cfg", timeout=1500, heap="4g"), dict(cfg="MC_Service_D.cfg", timeout=900, heap="4g")],
                # thorough: 9 heights / timeouts 1-2 (one context); two concurrent contexts (rank orders, consumer
                # funds shared); binding operations under a shared owner; the F20 universe
@@ -52,7 +52,7 @@ PROPS = {
                        SERVICE_MC, SERVICE_GEN, SERVICE_RND, scenarios=SERVICE_SCN,
                        required=["respond_ok", "respond_wrong_provider", "respond_not_active", "expire",
                                  "oneshot_removed", "batch_repeat", "total_reached", "pause_ok", "start_ok", "kill_ok",
-                                 "update_ok", "unauthorized", "callback_ok", "callback_err", "funds_pause", "skip"],
+                                 "update_ok", "unauthorized", "callback_ok", "callback_err", "funds_pause", "skip", "norate_pause"],
                        gen_cfg=SERVICE_GEN_CFG, assumptions=_ASSUME),
 }
 
@@ -80,5 +80,7 @@ TEXT = {
              "contexts are created and driven by keeper calls executed inside carrier transactions) and the "
              "insufficient-funds pause.",
         note="As C07. Finding F21 (batches beyond the repeated total after pause/start) is recognised by the "
-             "discriminator why.f21, finding F20 (new-batch entry left behind when no exchange rate exists) by why.f20."),
+             "discriminator why.f21 (known finding F23). Former finding F20 (new-batch entry left behind when no exchange "
+             "rate exists) is fixed in /repo (6da0f9d); the specification follows the repaired code and "
+             "scenarios/service_F20.ndjson stays as a regression scenario."),
 }
